@@ -1470,3 +1470,280 @@ Proof.
   destruct (ser_cells_nth cells blob i rc Hs Hrc) as [wire Hw].
   exists c, rc, wire. repeat split; try assumption. exact (c01_cell_wire c t rc wire Hv Hw).
 Qed.
+
+(* ---------- UTF-8: Cql.utf8_valid against the independent specifications ---------- *)
+Lemma cont_iff x : Cql.cont x = true <-> utail x.
+Proof.
+  unfold Cql.cont, utail. rewrite andb_true_iff, !N.leb_le. tauto.
+Qed.
+
+Ltac btest :=
+  repeat match goal with
+  | |- context [?a <? ?b] => destruct (N.ltb_spec a b); try lia
+  | |- context [?a <=? ?b] => destruct (N.leb_spec a b); try lia
+  | |- context [?a =? ?b] => destruct (N.eqb_spec a b); try lia
+  end.
+
+Lemma utf8_valid_of_wf b : utf8_wf b -> Cql.utf8_valid b = true.
+Proof.
+  induction 1 as [|x r Hx _ IH|x c1 r Hx H1 _ IH|c1 c2 r H1 H2 _ IH|x c1 c2 r Hx H1 H2 _ IH|c1 c2 r H1 H2 _ IH
+                 |x c1 c2 r Hx H1 H2 _ IH|c1 c2 c3 r H1 H2 H3 _ IH|x c1 c2 c3 r Hx H1 H2 H3 _ IH|c1 c2 c3 r H1 H2 H3 _ IH];
+    cbn [Cql.utf8_valid]; unfold utail in *;
+    repeat match goal with H : _ <= _ <= _ |- _ => destruct H end;
+    try reflexivity; unfold Cql.cont; btest; cbn [andb orb]; try assumption; try reflexivity.
+Qed.
+
+Lemma andb4 a b c d : a && b && c && d = true -> a = true /\ b = true /\ c = true /\ d = true.
+Proof. intros H. repeat (apply andb_true_iff in H as [H ?]). auto. Qed.
+Lemma andb3 a b c : a && b && c = true -> a = true /\ b = true /\ c = true.
+Proof. intros H. repeat (apply andb_true_iff in H as [H ?]). auto. Qed.
+
+Lemma wf_of_utf8_valid_n n : forall b, (List.length b <= n)%nat -> Cql.utf8_valid b = true -> utf8_wf b.
+Proof.
+  induction n as [|n IH]; intros b Hl H.
+  - destruct b; [constructor|cbn [List.length] in Hl; lia].
+  - destruct b as [|x r]; [constructor|]. cbn [List.length] in Hl. cbn [Cql.utf8_valid] in H.
+    destruct (N.ltb_spec x 128) as [A|A].
+    { apply wf_ascii; [lia|]. apply IH; [lia|exact H]. }
+    destruct ((194 <=? x) && (x <=? 223)) eqn:E2.
+    { apply andb_true_iff in E2 as [E2a E2b]. apply N.leb_le in E2a, E2b.
+      destruct r as [|c1 r1]; [discriminate|]. apply andb_true_iff in H as [H1 Hr]. apply cont_iff in H1.
+      apply wf_2; [lia|exact H1|]. apply IH; [cbn [List.length] in Hl; lia|exact Hr]. }
+    destruct (N.eqb_spec x 224) as [->|N224].
+    { destruct r as [|c1 [|c2 r2]]; try discriminate. apply andb4 in H as (Ha & Hb & Hc & Hr).
+      apply N.leb_le in Ha, Hb. apply cont_iff in Hc.
+      apply wf_e0; [lia|exact Hc|]. apply IH; [cbn [List.length] in Hl; lia|exact Hr]. }
+    destruct (((225 <=? x) && (x <=? 236)) || (x =? 238) || (x =? 239)) eqn:E3.
+    { destruct r as [|c1 [|c2 r2]]; try discriminate. apply andb3 in H as (Ha & Hb & Hr).
+      apply cont_iff in Ha, Hb.
+      assert (Hrr : utf8_wf r2) by (apply IH; [cbn [List.length] in Hl; lia|exact Hr]).
+      apply orb_true_iff in E3 as [E3|E3]; [apply orb_true_iff in E3 as [E3|E3]|].
+      - apply andb_true_iff in E3 as [Ea Eb]. apply N.leb_le in Ea, Eb. apply wf_e1; [lia|assumption..].
+      - apply N.eqb_eq in E3. apply wf_ee; [lia|assumption..].
+      - apply N.eqb_eq in E3. apply wf_ee; [lia|assumption..]. }
+    destruct (N.eqb_spec x 237) as [->|N237].
+    { destruct r as [|c1 [|c2 r2]]; try discriminate. apply andb4 in H as (Ha & Hb & Hc & Hr).
+      apply N.leb_le in Ha, Hb. apply cont_iff in Hc.
+      apply wf_ed; [lia|exact Hc|]. apply IH; [cbn [List.length] in Hl; lia|exact Hr]. }
+    destruct (N.eqb_spec x 240) as [->|N240].
+    { destruct r as [|c1 [|c2 [|c3 r3]]]; try discriminate.
+      apply andb_true_iff in H as [H Hr]. apply andb4 in H as (Ha & Hb & Hc & Hd).
+      apply N.leb_le in Ha, Hb. apply cont_iff in Hc, Hd.
+      apply wf_f0; [lia|exact Hc|exact Hd|]. apply IH; [cbn [List.length] in Hl; lia|exact Hr]. }
+    destruct ((241 <=? x) && (x <=? 243)) eqn:E4.
+    { apply andb_true_iff in E4 as [Ea Eb]. apply N.leb_le in Ea, Eb.
+      destruct r as [|c1 [|c2 [|c3 r3]]]; try discriminate. apply andb4 in H as (Ha & Hb & Hc & Hr).
+      apply cont_iff in Ha, Hb, Hc.
+      apply wf_f1; [lia|assumption..|]. apply IH; [cbn [List.length] in Hl; lia|exact Hr]. }
+    destruct (N.eqb_spec x 244) as [->|N244]; [|discriminate].
+    destruct r as [|c1 [|c2 [|c3 r3]]]; try discriminate.
+    apply andb_true_iff in H as [H Hr]. apply andb4 in H as (Ha & Hb & Hc & Hd).
+    apply N.leb_le in Ha, Hb. apply cont_iff in Hc, Hd.
+    apply wf_f4; [lia|exact Hc|exact Hd|]. apply IH; [cbn [List.length] in Hl; lia|exact Hr].
+Qed.
+
+Theorem utf8_valid_iff_wf b : Cql.utf8_valid b = true <-> utf8_wf b.
+Proof. split; [apply (wf_of_utf8_valid_n (List.length b)); lia|apply utf8_valid_of_wf]. Qed.
+
+Lemma enc_wf c r : scalar c -> utf8_wf r -> utf8_wf (utf8_enc c ++ r).
+Proof.
+  intros Hs Hr. unfold utf8_enc, scalar in *.
+  destruct (N.ltb_spec c 128) as [A|A]; [cbn [app]; apply wf_ascii; [lia|exact Hr]|].
+  destruct (N.ltb_spec c 2048) as [B|B].
+  { cbn [app]. apply wf_2; [lia|unfold utail; lia|exact Hr]. }
+  destruct (N.ltb_spec c 65536) as [C|C].
+  { cbn [app].
+    assert (Q : c / 4096 = 0 \/ (1 <= c / 4096 <= 12) \/ c / 4096 = 13 \/ (14 <= c / 4096 <= 15)) by lia.
+    destruct Q as [Q|[Q|[Q|Q]]].
+    - rewrite Q. change (224 + 0) with 224. apply wf_e0; [lia|unfold utail; lia|exact Hr].
+    - apply wf_e1; [lia|unfold utail; lia|unfold utail; lia|exact Hr].
+    - rewrite Q. change (224 + 13) with 237. apply wf_ed; [lia|unfold utail; lia|exact Hr].
+    - apply wf_ee; [lia|unfold utail; lia|unfold utail; lia|exact Hr]. }
+  cbn [app].
+  assert (Q : c / 262144 = 0 \/ (1 <= c / 262144 <= 3) \/ c / 262144 = 4) by lia.
+  destruct Q as [Q|[Q|Q]].
+  - rewrite Q. change (240 + 0) with 240. apply wf_f0; [lia|unfold utail; lia|unfold utail; lia|exact Hr].
+  - apply wf_f1; [lia|unfold utail; lia|unfold utail; lia|unfold utail; lia|exact Hr].
+  - rewrite Q. change (240 + 4) with 244. apply wf_f4; [lia|unfold utail; lia|unfold utail; lia|exact Hr].
+Qed.
+
+Ltac enc_eq :=
+  unfold utf8_enc;
+  repeat match goal with
+  | |- context [?a <? ?b] => destruct (N.ltb_spec a b); try lia
+  end;
+  repeat (f_equal; try lia).
+
+Lemma wf_decode b : utf8_wf b -> exists cs, Forall scalar cs /\ b = utf8_of cs.
+Proof.
+  induction 1 as [|x r Hx _ IH|x c1 r Hx H1 _ IH|c1 c2 r H1 H2 _ IH|x c1 c2 r Hx H1 H2 _ IH|c1 c2 r H1 H2 _ IH
+                 |x c1 c2 r Hx H1 H2 _ IH|c1 c2 c3 r H1 H2 H3 _ IH|x c1 c2 c3 r Hx H1 H2 H3 _ IH|c1 c2 c3 r H1 H2 H3 _ IH];
+    unfold utail in *.
+  - exists []. split; [constructor|reflexivity].
+  - destruct IH as (cs & Hcs & ->). exists (x :: cs). split; [constructor; [unfold scalar; lia|exact Hcs]|].
+    change (utf8_of (x :: cs)) with (utf8_enc x ++ utf8_of cs).
+    replace (utf8_enc x) with [x] by enc_eq. reflexivity.
+  - destruct IH as (cs & Hcs & ->). set (c := (x - 192) * 64 + (c1 - 128)).
+    exists (c :: cs). split; [constructor; [unfold scalar, c; lia|exact Hcs]|].
+    change (utf8_of (c :: cs)) with (utf8_enc c ++ utf8_of cs).
+    replace (utf8_enc c) with [x; c1] by (unfold c; enc_eq). reflexivity.
+  - destruct IH as (cs & Hcs & ->). set (c := (c1 - 128) * 64 + (c2 - 128)).
+    exists (c :: cs). split; [constructor; [unfold scalar, c; lia|exact Hcs]|].
+    change (utf8_of (c :: cs)) with (utf8_enc c ++ utf8_of cs).
+    replace (utf8_enc c) with [224; c1; c2] by (unfold c; enc_eq). reflexivity.
+  - destruct IH as (cs & Hcs & ->). set (c := (x - 224) * 4096 + (c1 - 128) * 64 + (c2 - 128)).
+    exists (c :: cs). split; [constructor; [unfold scalar, c; lia|exact Hcs]|].
+    change (utf8_of (c :: cs)) with (utf8_enc c ++ utf8_of cs).
+    replace (utf8_enc c) with [x; c1; c2] by (unfold c; enc_eq). reflexivity.
+  - destruct IH as (cs & Hcs & ->). set (c := 13 * 4096 + (c1 - 128) * 64 + (c2 - 128)).
+    exists (c :: cs). split; [constructor; [unfold scalar, c; lia|exact Hcs]|].
+    change (utf8_of (c :: cs)) with (utf8_enc c ++ utf8_of cs).
+    replace (utf8_enc c) with [237; c1; c2] by (unfold c; enc_eq). reflexivity.
+  - destruct IH as (cs & Hcs & ->). set (c := (x - 224) * 4096 + (c1 - 128) * 64 + (c2 - 128)).
+    exists (c :: cs). split; [constructor; [unfold scalar, c; lia|exact Hcs]|].
+    change (utf8_of (c :: cs)) with (utf8_enc c ++ utf8_of cs).
+    replace (utf8_enc c) with [x; c1; c2] by (unfold c; enc_eq). reflexivity.
+  - destruct IH as (cs & Hcs & ->). set (c := (c1 - 128) * 4096 + (c2 - 128) * 64 + (c3 - 128)).
+    exists (c :: cs). split; [constructor; [unfold scalar, c; lia|exact Hcs]|].
+    change (utf8_of (c :: cs)) with (utf8_enc c ++ utf8_of cs).
+    replace (utf8_enc c) with [240; c1; c2; c3] by (unfold c; enc_eq). reflexivity.
+  - destruct IH as (cs & Hcs & ->). set (c := (x - 240) * 262144 + (c1 - 128) * 4096 + (c2 - 128) * 64 + (c3 - 128)).
+    exists (c :: cs). split; [constructor; [unfold scalar, c; lia|exact Hcs]|].
+    change (utf8_of (c :: cs)) with (utf8_enc c ++ utf8_of cs).
+    replace (utf8_enc c) with [x; c1; c2; c3] by (unfold c; enc_eq). reflexivity.
+  - destruct IH as (cs & Hcs & ->). set (c := 4 * 262144 + (c1 - 128) * 4096 + (c2 - 128) * 64 + (c3 - 128)).
+    exists (c :: cs). split; [constructor; [unfold scalar, c; lia|exact Hcs]|].
+    change (utf8_of (c :: cs)) with (utf8_enc c ++ utf8_of cs).
+    replace (utf8_enc c) with [244; c1; c2; c3] by (unfold c; enc_eq). reflexivity.
+Qed.
+
+Theorem utf8_wf_iff_scalars b : utf8_wf b <-> exists cs, Forall scalar cs /\ b = utf8_of cs.
+Proof.
+  split; [apply wf_decode|].
+  intros (cs & Hcs & ->). induction Hcs as [|c cs Hc _ IH]; [constructor|].
+  change (utf8_of (c :: cs)) with (utf8_enc c ++ utf8_of cs). apply enc_wf; assumption.
+Qed.
+
+(* ---------- whatever the specification parser returns has well-formed texts ---------- *)
+Lemma rthen_ok {A B} (p : reader A) (f : A -> reader B) b v r :
+  rthen p f b = Ok (v, r) -> exists a b', p b = Ok (a, b') /\ f a b' = Ok (v, r).
+Proof. unfold rthen. destruct (p b) as [[a b']|]; [eauto|discriminate]. Qed.
+Lemma rret_ok {A} (a v : A) b r : rret a b = Ok (v, r) -> v = a.
+Proof. unfold rret. intros H. apply ok_inj in H. injection H. auto. Qed.
+
+Lemma p_utf8_ok s b v r : p_utf8 s b = Ok (v, r) -> v = s /\ text_ok s.
+Proof.
+  unfold p_utf8, text_ok. destruct (Cql.utf8_valid s); [|discriminate]. intros H. apply rret_ok in H. auto.
+Qed.
+Lemma p_string_ok b v r : p_string b = Ok (v, r) -> text_ok v.
+Proof.
+  unfold p_string. intros H. apply rthen_ok in H as (n & b1 & _ & H). apply rthen_ok in H as (s & b2 & _ & H).
+  apply p_utf8_ok in H as [-> H]. exact H.
+Qed.
+Lemma p_long_string_ok b v r : p_long_string b = Ok (v, r) -> text_ok v.
+Proof.
+  unfold p_long_string. intros H. apply rthen_ok in H as (n & b1 & _ & H).
+  destruct (n <? 0)%Z; [discriminate|]. apply rthen_ok in H as (s & b2 & _ & H).
+  apply p_utf8_ok in H as [-> H]. exact H.
+Qed.
+Lemma p_repeat_ok {A} (p : reader A) (P : A -> Prop) :
+  (forall b v r, p b = Ok (v, r) -> P v) -> forall n b l r, p_repeat p n b = Ok (l, r) -> Forall P l.
+Proof.
+  intros Hp. induction n as [|n IH]; intros b l r H; cbn [p_repeat] in H.
+  - apply rret_ok in H. subst l. constructor.
+  - apply rthen_ok in H as (x & b1 & Hx & H). apply rthen_ok in H as (l' & b2 & Hl & H).
+    apply rret_ok in H. subst l. constructor; [exact (Hp _ _ _ Hx)|exact (IH _ _ _ Hl)].
+Qed.
+Lemma p_batch_query_ok b v r : p_batch_query b = Ok (v, r) -> stmt_wf (fst v).
+Proof.
+  unfold p_batch_query. intros H. apply rthen_ok in H as (k & b1 & _ & H).
+  apply rthen_ok in H as (s & b2 & Hs & H). apply rthen_ok in H as (vals & b3 & _ & H).
+  apply rret_ok in H. subst v. cbn [fst].
+  destruct k as [|[p|p|]]; try discriminate Hs.
+  - apply rthen_ok in Hs as (t & b4 & Ht & Hs). apply rret_ok in Hs. subst s. exact (p_long_string_ok _ _ _ Ht).
+  - apply rthen_ok in Hs as (t & b4 & Ht & Hs). apply rret_ok in Hs. subst s. exact I.
+Qed.
+
+Lemma p_pair_ok b v r : (k <- p_string ;; v <- p_string ;; rret (k, v)) b = Ok (v, r) -> text_ok (fst v) /\ text_ok (snd v).
+Proof.
+  intros H. apply rthen_ok in H as (k & b1 & Hk & H). apply rthen_ok in H as (x & b2 & Hx & H).
+  apply rret_ok in H. subst v. split; [exact (p_string_ok _ _ _ Hk)|exact (p_string_ok _ _ _ Hx)].
+Qed.
+
+(* whatever request the specification parser returns has well-formed texts *)
+Lemma p_request_wf_texts mid op b r rest : p_request mid op b = Ok (r, rest) ->
+  match r with
+  | Query t _ => text_ok t
+  | Prepare t => text_ok t
+  | Batch _ stmts _ _ _ _ => Forall stmt_wf stmts
+  | Startup opts => Forall (fun kv => text_ok (fst kv) /\ text_ok (snd kv)) opts
+  | _ => True
+  end.
+Proof.
+  intros H. unfold p_request in H.
+  destruct op as [|p]; [discriminate H|].
+  do 4 (try destruct p as [p|p|]; try discriminate H).
+  all: try (destruct p; discriminate H).
+  all: repeat (let a := fresh "a" in let b' := fresh "b" in let Ha := fresh "Ha" in
+               apply rthen_ok in H as (a & b' & Ha & H)).
+  all: try (match type of H with (if ?c then _ else _) _ = _ => destruct c; [discriminate H|] end;
+            repeat (let a := fresh "a" in let b' := fresh "b" in let Ha := fresh "Ha" in
+                    apply rthen_ok in H as (a & b' & Ha & H))).
+  all: try (match type of H with (match ?c with Some _ => _ | None => _ end) _ = _ =>
+              destruct c; [|discriminate H] end).
+  all: apply rret_ok in H; subst r; try exact I.
+  all: try match goal with Hx : p_long_string _ = Ok (?t, _) |- text_ok ?t => exact (p_long_string_ok _ _ _ Hx) end.
+  - (* BATCH *)
+    match goal with Hq : p_repeat p_batch_query _ _ = Ok (?qs, _) |- _ =>
+      pose proof (p_repeat_ok p_batch_query (fun q => stmt_wf (fst q)) p_batch_query_ok _ _ _ _ Hq) as F end.
+    apply Forall_map. exact F.
+  - (* STARTUP *)
+    match goal with Hq : p_repeat _ _ _ = Ok (?l, _) |- _ =>
+      exact (p_repeat_ok _ (fun kv => text_ok (fst kv) /\ text_ok (snd kv)) p_pair_ok _ _ _ _ Hq) end.
+Qed.
+
+Lemma text_ok_iff_rfc b : text_ok b <-> text_rfc b.
+Proof. unfold text_ok, text_rfc. rewrite utf8_valid_iff_wf. apply utf8_wf_iff_scalars. Qed.
+Lemma stmt_wf_iff_rfc s : stmt_wf s <-> stmt_wf_rfc s.
+Proof. destruct s; cbn [stmt_wf stmt_wf_rfc]; [apply text_ok_iff_rfc|tauto]. Qed.
+Lemma Forall_iff {A} (P Q : A -> Prop) l : (forall x, P x <-> Q x) -> (Forall P l <-> Forall Q l).
+Proof. intros H. split; apply Forall_impl; intros a; apply H. Qed.
+
+Theorem req_wf_iff_rfc r : req_wf r <-> req_wf_rfc r.
+Proof.
+  unfold req_wf_rfc. destruct r as [t p|t|id m p|bt stmts vals c sc ts|opts|evs| |tok]; cbn [req_wf req_texts_rfc].
+  - rewrite text_ok_iff_rfc. tauto.
+  - rewrite text_ok_iff_rfc. tauto.
+  - tauto.
+  - rewrite (Forall_iff stmt_wf stmt_wf_rfc stmts stmt_wf_iff_rfc). tauto.
+  - rewrite (Forall_iff _ (fun kv => text_rfc (fst kv) /\ text_rfc (snd kv)) opts); [tauto|].
+    intros kv. rewrite !text_ok_iff_rfc. tauto.
+  - tauto.
+  - tauto.
+  - tauto.
+Qed.
+
+Theorem parse_encode_rfc cd alg tr r f mid :
+  req_wf_rfc r -> mid_matches mid r -> encode_request cd None tr r = Ok f ->
+  parse_frame cd alg mid f = Ok (mkHeader 4 (if tr then 2 else 0) 0 (opcode r) (blen f - 9), r).
+Proof. intros W. apply parse_encode. apply req_wf_iff_rfc. exact W. Qed.
+
+(* soundness of the specification parser w.r.t. the independent UTF-8 specification: for ANY bytes,
+   every text of the request it returns is the UTF-8 encoding of a sequence of Unicode scalar values *)
+Theorem parser_texts_rfc cd alg mid f h r : parse_frame cd alg mid f = Ok (h, r) -> req_texts_rfc r.
+Proof.
+  intros H. unfold parse_frame in H.
+  destruct f as [|v [|fl [|s1 [|s2 [|op [|l1 [|l2 [|l3 [|l4 body]]]]]]]]]; try discriminate H.
+  destruct (negb (v =? 4)); [discriminate H|].
+  destruct (negb (be_dec [l1; l2; l3; l4] =? blen body)); [discriminate H|].
+  destruct (4 <=? fl); [discriminate H|].
+  destruct (if N.testbit fl 0 then _ else _) as [body'|]; [|discriminate H].
+  destruct (p_request mid op body') as [[r' rest]|] eqn:E; [|discriminate H].
+  destruct rest; [|discriminate H]. apply ok_inj in H. injection H as _ <-.
+  apply p_request_wf_texts in E.
+  destruct r' as [t p|t|id m p|bt stmts vals c sc ts|opts|evs| |tok]; cbn [req_texts_rfc]; try exact I.
+  - apply text_ok_iff_rfc, E.
+  - apply text_ok_iff_rfc, E.
+  - apply (Forall_iff stmt_wf stmt_wf_rfc stmts stmt_wf_iff_rfc), E.
+  - revert E. apply Forall_impl. intros kv [A B]. split; apply text_ok_iff_rfc; assumption.
+Qed.
